@@ -111,12 +111,12 @@ impl Prop for C10 {
                 },
             )
         };
-        let mut files = if ch.chance(1, 3) {
+        let mut files = if ch.chance(1, 2) {
             gen::split_include(&lines, ch, 3)
         } else {
             vec![("main.s".to_string(), lines)]
         };
-        if files.len() > 1 && ch.chance(1, 5) {
+        if files.len() > 1 && ch.chance(1, 3) {
             // twin lines: the first line of two files jumps to an undefined label
             let k = 1 + ch.below(files.len() - 1);
             files[0].1.insert(0, Line::Ins(Ins::new("j", vec![Opd::L("nowhereA".into())])));
